@@ -45,6 +45,8 @@ theorem parse_frameA (t : Tables) (tol : Tol) (htol : tol.ok) (hwf : wfA t tol =
     (hfit : x > 0 → sumAbs (t.leadIn ++ symTimings t.bursts idx ++ [mo]) < x) :
     parse t tol (frameA t mo x idx) =
       .ok { bits := idx.flatMap (idxToBits t.bursts.length), cleaned := compress (frameA t mo x idx) } := by
+  have hgen : streamEnc t.bursts = .general := by
+    unfold wfA at hwf; rw [Bool.and_eq_true] at hwf; exact supported_general hwf.1
   obtain ⟨mo', x', hlo', hmo, hx0, hli, hb, hd⟩ := wfA_leadOut hwf
   rw [hlo] at hlo'
   obtain ⟨rfl, rfl⟩ : mo = mo' ∧ x = x' := by simpa using hlo'
@@ -92,7 +94,8 @@ theorem parse_frameA (t : Tables) (tol : Tol) (htol : tol.ok) (hwf : wfA t tol =
       exact leadOutLoop_gap tol htol t.bursts _ mo x hmo (by omega) hs syms
   -- assemble
   rw [hframe]
-  unfold parse parseWith
+  rw [parse_general hgen]
+  unfold parseWith
   rw [hperiod]
   simp only [bind, Except.bind, dropLast_two, hin, hlo, List.length_cons, List.length_nil, hout,
     List.append_nil, hsyms, hpairs, hbits, pure, Except.pure]
